@@ -84,7 +84,8 @@ def main(argv=None):
             else:
                 second[rel] = res
 
-    known = [k for k in load_known() if k["property"] == pid]
+    all_known = load_known()
+    known = [k for k in all_known if k["property"] == pid]
     undecided = []
     violations = []     # (rel, obligation)
     known_hits = []
@@ -155,6 +156,10 @@ def main(argv=None):
                     violations.append((rel, o))
             elif o["label"]:
                 other_prop_failures.append({"spec": rel, "obligation": o["id"], "label": o["label"]})
+                # a clause of another property fails in a function of this suite: tolerated only when it is an
+                # open known finding of that property; otherwise this run decides nothing
+                if not match_known(all_known, o, spec):
+                    undecided.append("%s: obligation %s of another property [%s] failed" % (rel, o["id"], o["label"]))
             else:
                 # unlabelled helper obligation (frame, callee precondition, built-in safety check without @safety)
                 undecided.append("%s: helper obligation %s failed (%s)" % (rel, o["id"], o["description"][:80]))
